@@ -394,6 +394,16 @@ class LinAlg:
         return sym_inv(a)
 
     @staticmethod
+    def pinvh(a, atol=None, rtol=None, lower=True, return_rank=False, check_finite=True):
+        for t in (atol, rtol):
+            if t is not None:
+                t = Sym.lift(t)
+                if not (t.isconc() and t.re == 0):
+                    raise NotImplementedError("pinvh with a non-zero tolerance (truncated eigendecomposition is LAPACK): outside the encoding")
+        St.notes.add("pinvh(tolerance 0) of a nonsingular symmetric matrix = inverse")
+        return sym_inv(a)
+
+    @staticmethod
     def cho_factor(a, lower=False, overwrite_a=False, check_finite=True):
         return ("cho", obj(a)), lower
 
